@@ -229,6 +229,7 @@ def vtable(ctx):
             if not cps:
                 return True, 'site not reached from %s' % root.name
             hd = holding(g, user_call_kills=False)
+            open_ = []
             for cs in cps:
                 A = hd.get((cs['_b'], cs['_i']), frozenset())
                 if any(a[0] == '!=' and a[2] == '0' and any(('iv_fd_poll_method', s) in a[3] for s in grp) for a in A):
@@ -237,8 +238,21 @@ def vtable(ctx):
                 # was found to be NULL (and never lowered again) is tested to be zero here
                 if any(a[0] == '==' and a[2] == '0' and a[1] in flags for a in A):
                     continue
+                open_.append(cs)
+            if not open_:
+                return True, 'guarded in %s' % root.name
+            if not flags:
                 return False, 'unguarded in %s' % root.name
-            return True, 'guarded in %s' % root.name
+            # The decision may be taken through a value computed from the flag (`kick = flag ? RAW : METHOD; switch
+            # (kick)`, `transports[flag].kick()`), which no atom on the flag itself dominates.  What the property
+            # needs is the scenario, not the shape of the test: in the world in which the slot is absent every
+            # absence flag is non-zero for the whole invocation (they are raised before the entry point that found
+            # the NULL slot returns and never lowered: see _absence_flags), and in that world no path may execute
+            # the call.
+            reached = _reached_with_flags_raised(prog, root, g, flags, {(cs['_b'], cs['_i']) for cs in open_})
+            if reached:
+                return False, 'unguarded in %s (executed with %s raised)' % (root.name, '/'.join(sorted(flags)))
+            return True, 'not executed in %s while the absence flag is raised' % root.name
         ok, res = _eval_site(prog, f, check)
         for (r, rok, detail) in res:
             inst.setdefault((_role_label(prog, r), slot), []).append(
@@ -252,12 +266,52 @@ def vtable(ctx):
                                                                  ', '.join(sorted({relloc(x[0]) for x in rows}))), fn=(bad or rows)[0][3])
 
 
+class _PinSim(CSim):
+    """CSim in a scenario in which some file-scope locations hold a given value for the whole invocation: they are
+    monotone (only non-zero constants are ever stored to them), so what an indirect call or an escaping address
+    makes the simulator forget about them is restored -- a store keeps whatever value it wrote."""
+
+    def __init__(self, prog, root, g, pinned, marker=None):
+        CSim.__init__(self, prog, root, g, None, marker, dict(pinned))
+        self._pinned = dict(pinned)
+
+    def _event(self, e, env, marks):
+        res = CSim._event(self, e, env, marks)
+        if res is None:
+            return None
+        env, marks = res
+        if any(k not in env for k in self._pinned):
+            env = dict(env)
+            for k, v in self._pinned.items():
+                env.setdefault(k, v)
+        return env, marks
+
+
+def _reached_with_flags_raised(prog, root, g, flags, copies):
+    """the (block, index) positions among `copies` that some path of g executes although every flag of `flags`
+    ({location: the values it can have once raised}) is raised throughout (the simulator walks a superset of the
+    feasible paths: "none" is sound)"""
+    hit = set()
+
+    def marker(e, env, marks):
+        if e['ev'] == 'call' and (e.get('_b'), e.get('_i')) in copies:
+            hit.add((e['_b'], e['_i']))
+        return ()
+    try:
+        _PinSim(prog, root, g, dict(flags), marker).run()
+    except AnalysisBroken:
+        # state bound exceeded: nothing was proved for this entry point; the obligation fails here (it does not
+        # take the other instances of the rule down with it)
+        return set(copies)
+    return hit
+
+
 def _absence_flags(prog, partner_slots):
     """File-scope flags F with: in every entry point that tests one of `partner_slots` for NULL, no path that took
     the NULL edge returns before F is known to be non-zero; and F is never written anything but a non-zero constant.
     Then `F == 0` later implies that the partner slot (hence the whole group) exists."""
     if not partner_slots:
-        return set()
+        return {}
     cands = None
     for slot in partner_slots:
         sites = _sites(prog, lambda e, slot=slot: e['ev'] == 'call' and method_slot(e) == slot)
@@ -281,8 +335,8 @@ def _absence_flags(prog, partner_slots):
                 good = {n for n in keys if all(truth(env.get(n, TOP)) is True for env in ends)}
                 cands = good if cands is None else (cands & good)
     if not cands:
-        return set()
-    out = set()
+        return {}
+    out = {}        # flag -> abstract value it has once raised (hull of the non-zero constants ever stored to it)
     for name in cands:
         # every store to the flag (a file-scope scalar, or a member of a file-scope struct) writes a non-zero constant
         ws = []
@@ -292,7 +346,8 @@ def _absence_flags(prog, partner_slots):
                 ws.append(e)
         if ws and all(e.get('op') == '=' and h15.loc_key(e['lhs']) == name and isinstance(strip(e.get('rhs')), dict)
                       and strip(e['rhs']).get('k') == 'int' and strip(e['rhs'])['v'] != 0 for e in ws):
-            out.add(name)
+            vals = [strip(e['rhs'])['v'] for e in ws]
+            out[name] = h15._norm((min(vals), max(vals), True))
     return out
 
 
